@@ -14,8 +14,8 @@ CHECKS = {
 
  "C02": dict(level="exploration", design="DESIGN.md §7 C02",
    technique="exhaustive small-scope enumeration against two independent references (spec-derived refwire + protowire), all field sequences <= L for Skip",
-   text="Every enumerated triple: Encoder bytes == spec-derived reference == protowire; reference bytes decode (safe+fast) to the reference value with full consumption. Skip: every sequence of <= 3 (thorough 4) well-formed fields over an 80-symbol field alphabet: DecodeTag+Skip returns input[start:end], cursor at end, concatenation reproduces the input. thorough adds all 2^32 values of 32-bit kinds and all 2^29-1 field numbers.",
-   note="Keys minimal (conforming writers); wire types 3/4 unsupported by design. Trusted: the two references (cross-checked against each other on every case)."),
+   text="Every enumerated triple: Encoder bytes == spec-derived reference == protowire; reference bytes decode (safe+fast) to the reference value with full consumption. Skip: every sequence of <= 3 (thorough 4) well-formed fields over a 98-symbol field alphabet (80 minimal encodings + 18 fields whose key is a padded, non-minimal varint): DecodeTag+Skip returns input[start:end], cursor at end, concatenation reproduces the input. thorough adds all 2^32 values of 32-bit kinds and all 2^29-1 field numbers.",
+   note="Encoder output is compared for minimal keys (conforming writers); Skip is also exercised on padded keys; wire types 3/4 unsupported by design. Trusted: the two references (cross-checked against each other on every case)."),
  "C03": dict(level="model_checking", design="DESIGN.md §7 C03",
    technique="explicit-state BFS over the real csproto.Decoder: every operation in every reachable decoder state, per buffer of an exhaustive bounded family; reference-model comparison per transition",
    text="For every byte string of length <= 4 (thorough 5) over a 16-symbol wire alphabet (no padding, the same as a sub-slice with spare capacity, three 10-byte paddings), BFS from NewDecoder over states keyed by all Decoder struct fields; all ~120 operations applied in every reachable state, so call sequences of every length are covered per buffer. Oracle per transition: no panic, cursor in [0,len], err==nil => reference item exists with equal value and advance == item length, over-long declared length => error, nested callee not invoked for over-long length. Declared-length allocation family runs in an address-space-limited subprocess with a per-call TotalAlloc budget; worker death is attributed to the executing case.",
@@ -55,25 +55,25 @@ CHECKS = {
 
  "C06": dict(level="exploration", design="DESIGN.md §7 C06",
    technique="exhaustive enumeration of wire-level encoding variants of every corpus value tree; differential oracle against the reference runtime's decode of the same bytes",
-   text="For every corpus type x runtime x value tree: all legal encoding variants (order permutations, packed/unpacked/split/mixed, duplicated singular scalar and message fields, every map-entry shape, two oneof members, 7 unknown-field shapes at every position, same inside nested messages) are decoded by the generated Unmarshal into a fresh struct and into a pre-populated struct with primed size cache; the result (read back through reflection) must equal the reference runtime's decode bit-exactly, incl. unknown bytes.",
+   text="For every corpus type x runtime x value tree: all legal encoding variants (order permutations, packed/unpacked/split/mixed, duplicated singular scalar and message fields, every map-entry shape, two oneof members, 7 unknown-field shapes at every position, same inside nested messages) are decoded by the generated Unmarshal into a fresh struct and into a pre-populated struct with primed size cache; the whole check runs on the default generation and on the code generated with enableunsafedecode=true (GENALT); the result (read back through reflection) must equal the reference runtime's decode bit-exactly, incl. unknown bytes.",
    note="Expected trees always come from the reference decode of the same bytes. Known findings (map-entry shapes, merge of duplicated message fields, repeated/file-scope extensions) are matched by shape-level signatures."),
  "C07": dict(level="exploration", design="DESIGN.md §7 C07",
    technique="exhaustive enumeration of unknown-field insertions over every corpus value tree; reference-decoded comparison of re-marshaled bytes",
-   text="Every encoding variant carrying unknown fields (7 shapes x every position, nested levels, all runtimes): generated Unmarshal then Size/Marshal; reference decode of the output must show the same unknown bytes in order and the same known tree; Size == len(Marshal); second round trip is a fixed point.",
+   text="Every encoding variant carrying unknown fields (7 shapes x every position, nested levels, all runtimes; default generation and enableunsafedecode=true): generated Unmarshal then Size/Marshal; reference decode of the output must show the same unknown bytes in order and the same known tree; Size == len(Marshal); second round trip is a fixed point.",
    note="Inputs the generated Unmarshal rejects are C06/C08's business."),
  "C10": dict(level="exploration", design="DESIGN.md §7 C10",
    technique="exhaustive corpus enumeration with buffer-clobber histories (complement, zero, reuse) and snapshot comparison; lazyproto clause decided by the C14/C15 explorations",
-   text="Every corpus type x runtime x value tree (+ unknown-field variant): generated Unmarshal (default options) from a private buffer, snapshot of the decoded tree, then the buffer is overwritten with its complement, zeroed, and recycled for another decode; the tree must stay equal to the snapshot. lazyproto clause: 18 messages x {Decoder.Decode safe mode, Decode()} x {complement, zero, recycled buffer}: all 26 accessors and NestedResults/NestedResult decoded lazily after the clobber must still give the original values (C14/C15 additionally clobber the buffer in every explored history/schedule).",
+   text="Every corpus type x runtime x value tree (+ unknown-field variant): generated Unmarshal (default options, and the explicit option enableunsafedecode=false, whose generated code must equal the default or pass the same check) from a private buffer, snapshot of the decoded tree, then the buffer is overwritten with its complement, zeroed, and recycled for another decode; the tree must stay equal to the snapshot. lazyproto clause: 18 messages x {Decoder.Decode safe mode, Decode()} x {complement, zero, recycled buffer}: all 26 accessors and NestedResults/NestedResult decoded lazily after the clobber must still give the original values (C14/C15 additionally clobber the buffer in every explored history/schedule).",
    note="Unsafe/fast mode is opt-in and not checked. Alias detection is by content clobbering (complement pattern changes every byte)."),
 
  "C17": dict(level="exploration", design="DESIGN.md §7 C17",
    technique="exhaustive enumeration of unset-required-field subsets x nesting positions; differential oracle against the reference runtime's initialisation verdict",
-   text="Every proto2 corpus type with required fields: every subset of unset required fields (exhaustive up to 6 fields, structured subsets for the 17-field message), with/without other content, deficient and complete nested messages in singular / list / map-value / oneof positions, empty message and empty input, for every runtime. Marshal, MarshalTo and csproto.Marshal must fail iff proto.CheckInitialized of the tree fails; generated Unmarshal of the reference's partial encoding must fail iff the reference's strict Unmarshal does.",
+   text="Every proto2 corpus type with required fields: every subset of unset required fields (exhaustive up to 6 fields, structured subsets for the 17-field message), with/without other content, deficient and complete nested messages in singular / list / map-value / oneof positions, empty message and empty input, for every runtime. Marshal, MarshalTo and csproto.Marshal must fail iff proto.CheckInitialized of the tree fails; generated Unmarshal (into a fresh receiver and, with csproto.Unmarshal too, into a receiver that already holds a complete message) of the reference's partial encoding must fail iff the reference's strict Unmarshal does.",
    note="Reference = google.golang.org/protobuf dynamicpb over independently built descriptors. Extension positions with required fields are not enumerated."),
 
  "C08": dict(level="exploration", design="DESIGN.md §7 C08",
    technique="exhaustive mutation families (every truncation, every single-byte replacement from an 11-value menu at every offset, every length-prefix inflation) over canonical encodings of all corpus value trees + all short byte strings over a wire alphabet; differential oracle on commonly accepted inputs; crash-attributing subprocess workers",
-   text="For every corpus type x runtime: all truncations, all byte replacements at all offsets, all length-prefix inflations (with per-case allocation budget) of every seed encoding, and every byte string <= 3 (4) over a 16-symbol alphabet. No panic, no worker death under an address-space limit, allocation linear in the input, and whenever generated Unmarshal and the reference both accept, the decoded trees are equal.",
+   text="For every corpus type x runtime: all truncations, all byte replacements at all offsets, all length-prefix inflations (with per-case allocation budget) of every seed encoding, every seed encoding twice in a row, and every byte string <= 3 (4) over a 16-symbol alphabet. Default generation and enableunsafedecode=true. No panic, no worker death under an address-space limit, allocation linear in the input, and whenever generated Unmarshal and the reference both accept, the decoded trees are equal.",
    note="Agreement is only required on commonly accepted inputs. Disagreements caused by triaged mechanisms (map-entry shape, unsupported extension shapes) are attributed by a structural classifier and listed as known findings."),
 
  "C12": dict(level="model_checking", design="DESIGN.md §7 C12",
@@ -87,12 +87,12 @@ CHECKS = {
 
  "C16": dict(level="exploration", design="DESIGN.md §7 C16",
    technique="exhaustive product enumeration schemas x runtimes x all 16 generator option combinations through the plug-in built from the current sources, with compilation of every compilable option set",
-   text="Every corpus file (feature matrix incl. map<bool>, extension kinds, name-collision files, proto3 optional) for every runtime flavour + the repository's google-v2 example schemas x apiversion x filepermessage x enableunsafedecode x specialname: each request run twice: no error, byte-identical responses, documented and pairwise distinct (case-insensitive) file names, one file per message, every file parses; per-message function bodies identical to single-file ones; unsafe option only adds SetMode lines; 5 option sets compiled with the runtime's message types.",
+   text="Every corpus file (feature matrix incl. map<bool>, extension kinds, name-collision files, proto3 optional) for every runtime flavour + the repository's google-v2 example schemas x apiversion x filepermessage x enableunsafedecode x specialname: each request run twice: no error, byte-identical responses, documented and pairwise distinct (case-insensitive) file names, one file per message, every file parses; per-message function bodies identical to single-file ones; requests naming two files to generate (6 file pairs per runtime, both orders, both file modes) return exactly the files of the single-file requests; unsafe option only adds SetMode lines; 5 option sets compiled with the runtime's message types.",
    note="No protoc in the sandbox: plug-ins are driven with hand-built CodeGeneratorRequests; third-party message types come from the pinned generators (committed under mc/gen). Invalid option values are outside the quantifier."),
 
  "C11": dict(level="model_checking", design="DESIGN.md §7 C11",
    technique="exhaustive product enumeration (flavours x values x API functions) differential against the owning runtimes + controlled-scheduler exploration of ALL interleavings of the first classification of a never-seen type (sync.Map behind the shim)",
-   text="Mode X: fast-marshal corpus types of gogo/legacy v1/gv2/gv1 and plain messages (google v2 well-known types and descriptors, gogo descriptor and self-marshaling types, hand-written Google V1 messages with and without XXX_ methods) x Marshal/Unmarshal (4 directions)/Size/Clone/Equal (all ordered pairs incl. cross-runtime)/Reset/MarshalText/MsgType/GrpcCodec against the owning runtime called directly; 9 unsupported values and typed-nil pointers: documented error / zero result, no panic. Mode S: 2-4 goroutines calling MsgType/Clone/Equal/HasExtension on a type evicted from the classification cache before every execution; every interleaving of the sync.Map operations (unbounded preemptions); every goroutine must see the right class and the final cache entry must be right.",
+   text="Mode X: fast-marshal corpus types of gogo/legacy v1/gv2/gv1 and plain messages (google v2 well-known types and descriptors, gogo descriptor and self-marshaling types, hand-written Google V1 messages with and without XXX_ methods) x Marshal/Unmarshal (4 directions)/Size/Clone/Equal (all ordered pairs incl. cross-runtime; same pointer and equal copy for every subject, NaN-bearing values always included)/Reset/MarshalText/MsgType/GrpcCodec against the owning runtime called directly; 9 unsupported values and typed-nil pointers: documented error / zero result, no panic. Mode S: 2-4 goroutines calling MsgType/Clone/Equal/HasExtension on a type evicted from the classification cache before every execution; every interleaving of the sync.Map operations (unbounded preemptions); every goroutine must see the right class and the final cache entry must be right.",
    note="Decoded/cloned messages are compared bit-exactly through reflection (the runtimes' Equal treats NaN as unequal); csproto.Equal itself is compared with the runtime's Equal. Sequential consistency assumed; sync.Map internals are trusted."),
 
  "C09": dict(level="model_checking", design="DESIGN.md §7 C09",
